@@ -44,13 +44,13 @@ CHECKS = {
   "Static, all clauses (proof-style: every obligation enumerated and discharged mechanically). For EVERY call history and thread interleaving: statics are immutable, once-cells or "
   "thread-local; no hand-written unsafe impl; the only user unsafe block is the thread-local accessor; once-cell initialisers are argument-free and reach no hidden input; no public "
   "entry point (13 API functions + projection forward/inverse) reaches clock/env/fs/RNG/thread-id/pointer-to-int/shared mutable statics, hash iteration is sorted before use; each memo "
-  "table is written only by its getter, fill-once, with a slot index injective on the value-relevant key over all calling contexts and a key-only value; the per-thread object never leaves "
+  "table is written only by its getter, fill-once, with a slot index injective on the value-relevant key over all calling contexts, a key-only value, and the value returned on a miss being the very value stored; the per-thread object never leaves "
   "its thread. Trusts std's OnceLock/LazyLock/thread_local!/lazy_static.", "proof"),
  "C14": ("6/C14", "interprocedural abstract interpretation of MIR (intervals, value sets, linear facts + Fourier-Motzkin, vector lengths, field invariants, case splits)",
   "Static, strong partial. For ALL u64 x i32 (and Option/slice/option-struct) arguments of the 13 API entry points: every integer-determined failure site reachable in any calling context "
   "(overflow, shift amount, division, sign-losing/truncating cast, indexing, unwrap/expect/panic, allocation size) is discharged by the range analysis, is input-independent (once-cell "
   "initialisers), or is a reviewed assumption listed with its reason (float geometry, beyond the 4^8 bound, C11's quantifier); hierarchy/lookup results are serialize() outputs or the world "
-  "cell; fallible entry points return Result<_, String>. Quick uses 5 assumptions that the thorough tier (case splits per decoded resolution) must discharge. Thorough also compares arithmetic/shift/index sites per function between the overflow-checked and the release-like extraction. Does NOT decide float-geometry "
+  "cell; fallible entry points return Result<_, String>. Quick uses 5 assumptions that the thorough tier (case splits per decoded resolution) must discharge. Float wrap loops (`while x - c > A { x -= B }`) carry a TERM obligation: the value entering and the reference are bounded so that every round changes x. Thorough also compares arithmetic/shift/index sites per function between the overflow-checked and the release-like extraction. Does NOT decide float-geometry "
   "panics or termination beyond 'no wrapped-negative loop bound / allocation size'."),
  "C15": ("6/C15", "custom MIR sibling-agreement rules",
   "Static, partial. Decides: forward and inverse select (triangle index, reflect) identically from one polar value, unsquashed face triangle, own-face spherical triangle, correct slots and "
@@ -60,7 +60,7 @@ CHECKS = {
   "sides and they separate the 6 orientations; every digit rewritten, opposite order; flip alphabet {-1,+1}; same reverse involution; shared: every index/overflow/cast obligation inside a5::core::hilbert from the C14 range analysis (totality for depths 1..29). Does NOT decide injectivity over all 4^n positions."),
  "C18": ("6/C18", "numeric table predicates on compiler-evaluated constants + finite-domain evaluation of MIR-derived formulas + scan-shape rule",
   "Static, partial. Decides: QUATERNIONS is a regular-dodecahedron frame with polar faces and the documented ring structure; offset 93; order permutation; layout classification total; the two "
-  "relabelling formulas, evaluated over first quintant x quintant x the four reference layouts bound to origin.orientation, are mutually inverse bijections using one orientation slot and run against the quintant order exactly on the two clockwise layouts; nearest-face = full scan arg-min. Does NOT decide that the modified haversine orders like distance."),
+  "relabelling formulas, evaluated over first quintant x quintant x the four reference layouts bound to origin.orientation, are mutually inverse bijections using one orientation slot and run against the quintant order exactly on the two clockwise layouts; nearest-face = full scan arg-min (loop or fold); every use of the indexing face in lonlat_to_estimate is find_nearest_origin(from_lon_lat(point)) (D5). Does NOT decide that the modified haversine orders like distance."),
  "C19": ("6/C19", "table drift bound + affine mirror comparison of MIR-derived float formulas",
   "Static, thin partial. Decides: coefficient tables within sum(k+1)|delta| <= 1e-15 of the reference; forward/inverse use their own table; from_lon_lat/to_lon_lat are affine mirror images "
   "(offset, reciprocal factors, same pi/2, forward paired with inverse); apply_coefficients has the single result formula phi + series on every path; every `x > A => x -= B` / `x < -A => x += B` wrap in the coordinate code has B == 2A (A5). Does NOT decide the 1e-12 round trip or monotonicity."),
